@@ -25,10 +25,10 @@ Proof.
   - apply den_null. congruence.
   - rewrite Hl. apply den_cap; congruence.
   - eapply den_struct; try congruence.
-    intros i Hi. rewrite <- Hz in Hi. destruct (H3 i Hi) as (dep & rl & q0 & rl' & E & D).
+    intros i Hi. rewrite <- Hz in Hi. destruct (H4 i Hi) as (dep & rl & q0 & rl' & E & D).
     exists dep, rl, q0, rl'. rewrite <- Hs, Eseg, Epa. split; assumption.
   - rewrite Hl. apply den_bits; try congruence.
-  - apply den_comp; try congruence. intros i Hi. rewrite Eel. apply H4. lia.
+  - apply den_comp; try congruence. intros i Hi. rewrite Eel. apply H5. lia.
   - apply den_ptrs; try congruence. intros i Hi. rewrite <- Hl in Hi.
     destruct (H5 i Hi) as (dep & rl & q0 & rl' & v & E & D & N).
     exists dep, rl, q0, rl', v. rewrite <- Hs, Eseg, <- Ho. repeat split; assumption.
